@@ -87,4 +87,15 @@ CHECKS = {
             "assumptions": SEQ_ASSUME + ["ctx expiry: weaker reading (must close only after a transition ran since the ctx ended; may close earlier)", "the concurrent subscriber-vs-transition interleavings are covered by the in-handler subscription position (the only window: between setActiveStates and processSubscriptions) and by the SCHED drivers when built"],
         },
     },
+    "C11": {
+        "pkg": "harness/c11",
+        "instr": {"features": ["maprange"], "pkgs": ["pkg/machine"]},
+        "shards": {"quick": 8, "thorough": 16},
+        "gomaxprocs": 2,
+        "budget_s": {"quick": 150, "thorough": 1800},
+        "meta": {
+            "rule": "ENV exploration of map iteration orders: every range-over-map and maps.Keys/Values in pkg/machine (found with go/types on the current tree) is an ordered choice point (all n! orders for n<=4 keys, identity+reversal+rotations beyond); per case (schema with several Auto states / mutually Removing autos / 2-level Add fan / independent Require chains / duplicates / families, a 4-5 step history, with and without logging handlers) every execution with <= bound (1 quick, 2 thorough) non-default orders runs on the real machine; all must give the identical observation; non-trivial = execution with >=1 deviating order",
+            "assumptions": ["map iteration order is the only source of nondeterminism modelled; random ids are not observed", "orders for maps with >4 keys are restricted to rotations and reversal"],
+        },
+    },
 }
